@@ -11,6 +11,7 @@ import numpy as np
 from .. import install, refs, gen, reach
 from ..install import ctx as _ctx
 
+REPO_TESTS_UNDER_CONTRACTS = True
 RULE = ('cases = (data kind in {noise, tones in noise, ar, int, exact exponentials}, real/complex, '
         'N in 6..128, order in 1..min(N/2,20) incl. the square system N-p = p); non-trivial when '
         'order >= 2; distinct = distinct descriptor')
